@@ -633,7 +633,10 @@ func (p *InlineParser) parseBackslash(state *inlineState, start int) (end int) {
 		})
 		return end
 	}
-	end = start + 2
+	// A backslash before any other character is a literal backslash.
+	// Leave the following character to the caller:
+	// it may be the start of a multi-byte sequence.
+	end = start + 1
 	state.addToRoot(&Inline{
 		kind: TextKind,
 		span: Span{
